@@ -107,6 +107,7 @@ fn main() {
                 "C11" => props::c11::run(&ctx, &mut rep),
                 "C12" => props::c12::run(&ctx, &mut rep),
                 "C13" => props::c13::run(&ctx, &mut rep),
+                "C15" => props::c15::run(&ctx, &mut rep),
                 other => {
                     eprintln!("unknown property {other}");
                     std::process::exit(2);
